@@ -193,12 +193,12 @@ def check_case(case, ctx):
                 raise PropertyViolation("shared-object", f"{name[:-1]} {x.id} of the copy is the original's object")
     observe.audit_crossrefs(new, "copy")
     if not wa.user["opaque"]:
-        observe.audit_solver(new, ops.user_view(ops.user_remap(wa.user, new), new), "copy")
+        observe.audit_solver(new, ops.user_view(ops.user_remap(wa.user, new, orig), new), "copy")
     va, vb = orig.slim_optimize(), new.slim_optimize()
     if not observe.num_eq(va, vb, 1e-9):
         raise PropertyViolation("optimum-differs", f"optimum of original {va!r} vs copy {vb!r}")
 
-    wb = ops.World(new, user=ops.user_remap(wa.user, new), known=ctx.known)
+    wb = ops.World(new, user=ops.user_remap(wa.user, new, orig), known=ctx.known)
     if new.problem.__name__.endswith("glpk_exact_interface"):
         wb.exact_copy = True
     sa, sb = _snap(orig), _snap(new)
